@@ -731,7 +731,7 @@ harness! {
 
 harness! {
     /// kind=complete tier=quick bound="none: u8 operands over the full domain with l != r; assertc_eq! must panic" expect_fail="in const_panic::"
-    #[kani::unwind(70)]
+    #[kani::unwind(45)]
     fn c16_assertc_eq_panics(s) {
         let l = s.u8();
         let r = s.u8();
@@ -742,7 +742,7 @@ harness! {
 
 harness! {
     /// kind=complete tier=quick bound="none: u8 operands over the full domain with l == r; assertc_ne! must panic" expect_fail="in const_panic::"
-    #[kani::unwind(70)]
+    #[kani::unwind(45)]
     fn c16_assertc_ne_panics(s) {
         let l = s.u8();
         let r = s.u8();
